@@ -69,6 +69,11 @@ func ZZ_C09_SignerSet() {
 		n, pb = 3, 12
 	}
 	vs := ZZValidators(env, chain, n, pb)
+	// the first validator may have been jailed earlier in this block: off the power index, last power still recorded
+	if vs[0].Bonded && vrt.Bool("jailedThisBlock0") {
+		env.Staking.Vals[0].OffIndex = true
+		vs[0].Bonded = false // no longer one of "the bonded validators" the set has to mirror
+	}
 	nonce0 := vrt.Uint64Below("nonce0", 1<<56)
 	k.SetLatestSignerSetTxNonce(ctx, chain, nonce0)
 
